@@ -263,7 +263,7 @@ func mpMaster[L any, O any](mp MP[L, O], call int) BFSResult {
 	var workers []*mpWorker
 	spawn := func() *mpWorker {
 		cmd := exec.Command(exe, os.Args[1:]...)
-		cmd.Env = append(os.Environ(), "VERIF_BFS_WORKER=1", "VERIF_BFS_CALL="+strconv.Itoa(call), "GOMAXPROCS=2")
+		cmd.Env = append(os.Environ(), "VERIF_BFS_WORKER=1", "VERIF_BFS_CALL="+strconv.Itoa(call), "GOMAXPROCS=2", "VERIF_SCRATCH_BASE="+Scratch())
 		cmd.Stderr = os.Stderr
 		pin, _ := cmd.StdinPipe()
 		pout, _ := cmd.StdoutPipe()
